@@ -396,6 +396,26 @@ func verifyMain(args []string) int {
 	for g := 1; g <= ngroups; g++ {
 		res.Groups[strconv.Itoa(g)] = readGroup(db, uint64(g))
 	}
+	// A flush reports itself finished a moment before it removes its WAL segment, so a segment
+	// listed above can still disappear while the raft storages are being read: only segments
+	// that are also present now count as present.
+	time.Sleep(50 * time.Millisecond)
+	db.VerifLSM().VerifWaitFlush(15 * time.Second)
+	if files, err := filepath.Glob(filepath.Join(dir, "*.wal")); err == nil {
+		still := map[int]bool{}
+		for _, f := range files {
+			if n, err := strconv.Atoi(strings.TrimSuffix(filepath.Base(f), ".wal")); err == nil {
+				still[n] = true
+			}
+		}
+		kept := res.WalSegments[:0]
+		for _, n := range res.WalSegments {
+			if still[n] {
+				kept = append(kept, n)
+			}
+		}
+		res.WalSegments = kept
+	}
 	if ndb > 0 {
 		res.DB = map[string]string{}
 		for i := 1; i <= ndb; i++ {
